@@ -163,3 +163,188 @@ Proof.
   exists [0]. split; [left; reflexivity|].
   intros [_ [F _]]. inversion F; lia.
 Qed.
+
+(* ---------- conversions ---------- *)
+Lemma filter_perm {A} (f : A -> bool) l l' : Permutation l l' -> Permutation (filter f l) (filter f l').
+Proof.
+  induction 1; simpl; auto.
+  - destruct (f x); auto.
+  - destruct (f x), (f y); auto. apply perm_swap.
+  - etransitivity; eauto.
+Qed.
+
+(* the orbit of a sample does not depend on the order of the modes *)
+Theorem sample_to_orbit_perm s s' : Permutation s s' -> sample_to_orbit s = sample_to_orbit s'.
+Proof.
+  intros P. unfold sample_to_orbit. apply desc_perm_eq; try apply sort_desc_sorted.
+  rewrite !sort_desc_perm. apply filter_perm; auto.
+Qed.
+
+Lemma sort_desc_id o : desc o -> sort_desc o = o.
+Proof. intros H. apply desc_perm_eq; auto using sort_desc_sorted, sort_desc_perm. Qed.
+
+Lemma filter_nonzero_pos o : Forall (fun v => 1 <= v) o -> filter nonzero o = o.
+Proof.
+  induction 1 as [|x t Hx _ IH]; simpl; auto.
+  unfold nonzero at 1. destruct x; [lia|]. simpl. f_equal; auto.
+Qed.
+
+Lemma filter_nonzero_zeros k : filter nonzero (repeat 0 k) = [].
+Proof. induction k; simpl; auto. Qed.
+
+Theorem sample_to_orbit_pad o m : desc o -> Forall (fun v => 1 <= v) o -> sample_to_orbit (pad o m) = o.
+Proof.
+  intros D F. unfold sample_to_orbit, pad. rewrite filter_app, filter_nonzero_zeros, app_nil_r.
+  rewrite filter_nonzero_pos; auto. apply sort_desc_id; auto.
+Qed.
+
+Lemma map_nth_seq_gen (l : list nat) : forall pre,
+  map (fun i => nth i (pre ++ l) 0) (seq (length pre) (length l)) = l.
+Proof.
+  induction l as [|x t IH]; intros pre; simpl; auto.
+  rewrite nth_middle. f_equal.
+  specialize (IH (pre ++ [x])). rewrite app_length in IH. simpl in IH.
+  rewrite Nat.add_1_r, <- app_assoc in IH. exact IH.
+Qed.
+
+Lemma map_nth_seq (l : list nat) : map (fun i => nth i l 0) (seq 0 (length l)) = l.
+Proof. exact (map_nth_seq_gen l []). Qed.
+
+Lemma apply_perm_perm perm l : Permutation perm (seq 0 (length l)) -> Permutation (apply_perm perm l) l.
+Proof.
+  intros P. unfold apply_perm.
+  eapply Permutation_trans; [apply Permutation_map; exact P|]. rewrite map_nth_seq. apply Permutation_refl.
+Qed.
+
+Lemma pad_length o m : length o <= m -> length (pad o m) = m.
+Proof. intros. unfold pad. rewrite app_length, repeat_length. lia. Qed.
+
+(* orbit -> sample -> orbit, for every shuffle *)
+Theorem orbit_to_sample_roundtrip o m perm s :
+  desc o -> Forall (fun v => 1 <= v) o -> Permutation perm (seq 0 m) ->
+  orbit_to_sample o m perm = Some s -> sample_to_orbit s = o /\ length s = m.
+Proof.
+  intros D F P H. unfold orbit_to_sample in H.
+  destruct (m <? length o) eqn:E; [discriminate|]. apply Nat.ltb_ge in E.
+  injection H as <-. rewrite <- (pad_length o m E) in P. split.
+  - rewrite (sample_to_orbit_perm _ _ (apply_perm_perm _ _ P)). apply sample_to_orbit_pad; auto.
+  - rewrite (Permutation_length (apply_perm_perm _ _ P)). apply pad_length; auto.
+Qed.
+
+Lemma list_max_le_iff l c : list_max l <= c <-> Forall (fun v => v <= c) l.
+Proof.
+  induction l as [|x t IH]; simpl.
+  - split; auto with arith.
+  - split.
+    + intros H. constructor; [lia|]. apply IH. lia.
+    + intros H. inversion H; subst. apply IH in H3. lia.
+Qed.
+
+Theorem sample_to_event_spec s c k :
+  sample_to_event s c = Some k <-> Forall (fun v => v <= c) s /\ k = list_sum s.
+Proof.
+  unfold sample_to_event. destruct (list_max s <=? c) eqn:E.
+  - apply Nat.leb_le, list_max_le_iff in E. split.
+    + intros H; injection H as <-; auto.
+    + intros [_ ->]; auto.
+  - apply Nat.leb_gt in E. split; [discriminate|].
+    intros [H _]. apply list_max_le_iff in H. lia.
+Qed.
+
+Lemma filter_nonzero_sum s : list_sum (filter nonzero s) = list_sum s.
+Proof. induction s as [|x t IH]; simpl; auto. destruct x; simpl; lia. Qed.
+
+(* the orbit of a sample is a partition of its photon number *)
+Theorem sample_to_orbit_partition s : is_partition (list_sum s) (sample_to_orbit s).
+Proof.
+  unfold is_partition, sample_to_orbit. split; [apply sort_desc_sorted|]. split.
+  - eapply Permutation_Forall; [symmetry; apply sort_desc_perm|].
+    apply Forall_forall. intros x Hx. apply filter_In in Hx. destruct Hx as [_ Hx].
+    unfold nonzero in Hx. destruct x; [discriminate|lia].
+  - rewrite (list_sum_perm _ _ (sort_desc_perm _)). apply filter_nonzero_sum.
+Qed.
+
+(* ---------- exact cardinalities ---------- *)
+Lemma factN_S n : factN (S n) = (N.of_nat (S n) * factN n)%N.
+Proof. reflexivity. Qed.
+
+Lemma factN_pos n : (factN n <> 0)%N.
+Proof.
+  induction n as [|n IH]; [simpl; discriminate|].
+  rewrite factN_S. apply N.neq_mul_0. split; [lia|auto].
+Qed.
+
+(* a! b! divides (a+b)! *)
+Lemma fact_div a : forall b, exists q, (q * (factN a * factN b) = factN (a + b))%N.
+Proof.
+  induction a as [|a IHa]; intros b.
+  - exists 1%N. simpl factN at 1. simpl plus. lia.
+  - induction b as [|b IHb].
+    + exists 1%N. rewrite Nat.add_0_r. simpl factN at 2. lia.
+    + destruct (IHa (S b)) as [q1 H1]. destruct IHb as [q2 H2].
+      exists (q1 + q2)%N.
+      replace (S a + S b) with (S (a + S b)) by lia.
+      replace (S a + b) with (a + S b) in H2 by lia.
+      rewrite (factN_S (a + S b)), (factN_S a), (factN_S b) in *.
+      set (x := factN a) in *. set (y := factN b) in *. set (F := factN (a + S b)) in *.
+      replace (N.of_nat (S (a + S b))) with (N.of_nat (S a) + N.of_nat (S b))%N by lia.
+      set (A := N.of_nat (S a)) in *. set (B := N.of_nat (S b)) in *.
+      replace ((q1 + q2) * (A * x * (B * y)))%N
+        with (A * (q1 * (x * (B * y))) + B * (q2 * (A * x * y)))%N by ring.
+      rewrite H1, H2. ring.
+Qed.
+
+Lemma count_occ_remove_length v l : length (remove_all v l) + count_occ_nat v l = length l.
+Proof. induction l as [|x t IH]; simpl; auto. destruct (x =? v); simpl; lia. Qed.
+
+Lemma prod_fact_pos cs : (prod_fact cs <> 0)%N.
+Proof.
+  induction cs as [|c t IH]; simpl; [discriminate|].
+  pose proof (factN_pos c). lia.
+Qed.
+
+Lemma mults_div fuel : forall l, length l <= fuel ->
+  exists q, (q * prod_fact (mults fuel l) = factN (length l))%N.
+Proof.
+  induction fuel as [|f IH]; intros l Hl.
+  - destruct l; [|simpl in Hl; lia]. exists 1%N. reflexivity.
+  - destruct l as [|v t].
+    + exists 1%N. reflexivity.
+    + change (mults (S f) (v :: t)) with (count_occ_nat v (v :: t) :: mults f (remove_all v (v :: t))).
+      pose proof (count_occ_remove_length v (v :: t)) as HL.
+      assert (Hc : 1 <= count_occ_nat v (v :: t)) by (simpl; rewrite Nat.eqb_refl; lia).
+      set (c := count_occ_nat v (v :: t)) in *. set (r := remove_all v (v :: t)) in *.
+      destruct (IH r) as [q' Hq']; [lia|].
+      destruct (fact_div c (length r)) as [q0 Hq0].
+      exists (q0 * q')%N.
+      change (prod_fact (c :: mults f r)) with (factN c * prod_fact (mults f r))%N.
+      replace (c + length r) with (length (v :: t)) in Hq0 by lia.
+      rewrite <- Hq0, <- Hq'. ring.
+Qed.
+
+(* the model's orbit_cardinality is the multinomial coefficient modes! / prod(multiplicity!) with
+   exact division: cardinality * prod(multiplicity!) = modes! *)
+Theorem orbit_cardinality_multinomial o m : length o <= m ->
+  (orbit_cardinality o m * prod_fact (counts (pad o m)) = factN m)%N.
+Proof.
+  intros H. unfold orbit_cardinality, counts.
+  destruct (mults_div (length (pad o m)) (pad o m) (le_n _)) as [q Hq].
+  rewrite (pad_length o m H) in Hq at 2.
+  rewrite <- Hq. rewrite N.div_mul; auto. apply prod_fact_pos.
+Qed.
+
+(* the multiplicities are those of the padded sample and account for every mode *)
+Lemma mults_sum fuel : forall l, length l <= fuel -> list_sum (mults fuel l) = length l.
+Proof.
+  induction fuel as [|f IH]; intros l Hl.
+  - destruct l; [reflexivity|simpl in Hl; lia].
+  - destruct l as [|v t]; [reflexivity|].
+    change (mults (S f) (v :: t)) with (count_occ_nat v (v :: t) :: mults f (remove_all v (v :: t))).
+    pose proof (count_occ_remove_length v (v :: t)) as HL.
+    assert (Hc : 1 <= count_occ_nat v (v :: t)) by (simpl; rewrite Nat.eqb_refl; lia).
+    set (c := count_occ_nat v (v :: t)) in *. set (r := remove_all v (v :: t)) in *.
+    change (list_sum (c :: mults f r)) with (c + list_sum (mults f r)). rewrite IH; lia.
+Qed.
+
+Theorem counts_sum l : list_sum (counts l) = length l.
+Proof. apply mults_sum; auto. Qed.
